@@ -1417,7 +1417,7 @@ class Interp:
             return VBool(Eq(a.t, b.t))  # type: ignore
         if isinstance(a, VData) and isinstance(b, VData) and a.kind == b.kind:
             h = self.e.eq_hooks.get(a.kind + ".eq")
-            if h:
+            if h and not self.ctx.spec_mode:  # contracts use mathematical equality; code uses the type's __eq__
                 return h(self, a, b)
             return VBool(Eq(a.t, b.t))
         if isinstance(a, VSeq) and isinstance(b, VSeq):
